@@ -275,9 +275,97 @@ void harness(void) {
                    note='%d writer opcode constants read from nl-opcodes.h on this run' % len(consts))
 
 
+GFMT_PRE = '''
+#include "mp_shim.h"
+#include <string.h>
+int vp_one;
+/* dtoa_r_dmgay(x, mode, ndigits, &decpt, &sign, &rve, buf, blen): arbitrary result within its documented shape: 1..17 significant digits
+   without trailing zeros, first digit non-zero, value 0.d1d2...dn * 10^decpt with decpt in the range of doubles; or decpt 9999 and the text
+   "Infinity" / "NaN" */
+int g_nd, g_decpt, g_sign, g_special;   /* ghost copy of what dtoa returned */
+char g_digits[18];
+static char *dtoa_r_dmgay(double dd, int mode, int ndigits, int *decpt, int *sign, char **rve, char *buf, size_t blen) {
+  __CPROVER_assert(blen >= 32, "dtoa gets a buffer of at least 32 bytes");
+  g_sign = nondet_bool(); *sign = g_sign;
+  g_special = nondet_int();
+  if (g_special == 1 || g_special == 2) {
+    const char *t = g_special == 1 ? "Infinity" : "NaN"; size_t n = g_special == 1 ? 8 : 3;
+    for (size_t k = 0; k <= n; ++k) buf[k] = t[k];
+    *decpt = 9999; g_decpt = 9999; *rve = buf + n; return buf; }
+  g_special = 0;
+  g_nd = nondet_int(); __CPROVER_assume(1 <= g_nd && g_nd <= 17);
+  for (int k = 0; k < 17; ++k) { char c = nondet_char(); __CPROVER_assume('0' <= c && c <= '9'); g_digits[k] = c; }
+  __CPROVER_assume(g_digits[0] != '0' && g_digits[g_nd - 1] != '0');
+  for (int k = 0; k < g_nd; ++k) buf[k] = g_digits[k];
+  buf[g_nd] = 0; g_digits[g_nd] = 0;
+  g_decpt = nondet_int(); __CPROVER_assume(-330 <= g_decpt && g_decpt <= 320);
+  __CPROVER_assume(VP_CASE_LO <= g_decpt && g_decpt <= VP_CASE_HI && VP_ND_LO <= g_nd && g_nd <= VP_ND_HI);      /* case split of this harness */
+  *decpt = g_decpt; *rve = buf + g_nd; return buf; }
+'''
+
+
+def h_gfmt(case, lo, hi, nlo=1, nhi=17):
+    """Text numbers: DAVID_GAY_GFMT::g_fmt renders dtoa's (digits, decimal point position) as a decimal literal that denotes exactly that
+    number: the mantissa digits are dtoa's digits (plus leading / trailing zeros), the position of the point plus the written exponent
+    equals decpt, the exponent consists of decimal digits.  All loops are bounded by 17 digits / 5 padding zeros / 3 exponent digits."""
+    parts = ['#define VP_CASE_LO (%d)\n#define VP_CASE_HI (%d)\n#define VP_ND_LO %d\n#define VP_ND_HI %d\n' % (lo, hi, nlo, nhi), GFMT_PRE,
+             Fn(W2, r'g_fmt\(char \*b, double x, int prec\)', 'int g_fmt(char *b, double x, int prec)', label='DAVID_GAY_GFMT::g_fmt', nmatches=1), '''
+double vp_in_x;
+void harness(void) {
+  vp_one = 1;
+  char out[64];                                   /* arbitrary content */
+  double x = nondet_double(); vp_in_x = x;
+  int prec = 0;                                   /* the writer's default: shortest round-trip digits */
+  int n = g_fmt(out, x, prec);
+  __CPROVER_assert(0 < n && n < 28 && out[n] == 0, "g_fmt returns the length of the NUL-terminated text it wrote (at most 27 characters)"); __CPROVER_assume(n < 28);
+  if (x == 0) { __CPROVER_assert(n == 1 && out[0] == '0', "zero (of either sign) is written as 0"); }
+  else if (g_special == 2) { __CPROVER_assert(n == 3 && out[0] == 'N' && out[1] == 'a' && out[2] == 'N', "NaN is written as NaN (without a sign)"); }
+  else if (g_special == 1) { __CPROVER_assert(out[0] == (g_sign ? '-' : 'I') && n == (g_sign ? 9 : 8), "an infinity is written as [-]Infinity"); }
+  else {
+    /* ghost parse of the literal: [-] digits [. digits] [e (+|-) digits] */
+    int p = 0, nm = 0, before = -1; char mant[32]; long e = 0; int esign = 1, edigits = 0;
+    if (out[p] == '-') { __CPROVER_assert(g_sign, "a minus sign is written only for a negative number"); ++p; } else __CPROVER_assert(!g_sign, "a negative number gets a minus sign");
+    for (; p < n && out[p] != 'e'; ++p) {
+      if (out[p] == '.') { __CPROVER_assert(before < 0, "at most one decimal point"); before = nm; }
+      else { __CPROVER_assert('0' <= out[p] && out[p] <= '9', "the mantissa consists of decimal digits"); __CPROVER_assert(nm < 31, "mantissa length"); mant[nm++] = out[p]; } }
+    if (before < 0) before = nm;
+    if (p < n) {      /* exponent part */
+      ++p; __CPROVER_assert(p < n && (out[p] == '+' || out[p] == '-'), "the exponent has a sign"); esign = out[p] == '-' ? -1 : 1; ++p;
+      for (; p < n; ++p) { __CPROVER_assert('0' <= out[p] && out[p] <= '9', "the exponent consists of decimal digits"); e = 10 * e + (out[p] - '0'); ++edigits; }
+      __CPROVER_assert(edigits >= 2 && edigits <= 3, "the exponent has two or three digits"); }
+    /* leading zeros of the mantissa shift the point */
+    int z = 0; while (z < nm && mant[z] == '0') ++z;
+    __CPROVER_assert(nm - z >= g_nd, "all significant digits are written");
+    for (int k = 0; k < 17; ++k) if (k < g_nd) __CPROVER_assert(mant[z + k] == g_digits[k], "the significant digits written are dtoa's digits, in order");
+    for (int k = z + g_nd; k < nm; ++k) __CPROVER_assert(mant[k] == '0', "only zeros follow the significant digits");
+    __CPROVER_assert((long)before - z + esign * e == g_decpt, "the position of the decimal point plus the written exponent is dtoa's decimal point position: the literal denotes the same number");
+  }
+  VP_REACH("end");
+}
+''']
+    return Harness('C03.g_fmt.' + case, 'C03', parts, plain=True, inputs=['vp_in_x'], timeout=1500, flags=['--unwind', '30'],
+                   stubs=['dtoa_r_dmgay (arbitrary digits 1..17 without trailing zeros, decimal point position -330..320, or Infinity / NaN)'],
+                   assumptions=['dtoa_r_dmgay returns the shortest digit string that strtod reads back as the same double (David Gay\'s algorithm; not decided here)',
+                                'strtod on the reader side is correctly rounded'],
+                   note='precision 0 (the writer default); every loop is bounded by the digit count (17), the zero padding (5) or the exponent length (3): unwinding 30 is complete',
+                   replay=replay_gfmt)
+
+
+def replay_gfmt(lead, inputs, obs):
+    """native: real TextFormatter::nput -> real TextReader / ReadConstant for every power of ten and neighbours"""
+    out, err, cmd = build_c03_replay()
+    if out is None:
+        return False, err, cmd
+    import subprocess
+    p = subprocess.run([out, '--text-sweep'], capture_output=True, text=True, timeout=600)
+    return p.returncode == 10, (p.stdout + p.stderr)[-2000:], out + ' --text-sweep'
+
+
 def harnesses(tier, seed):
     union_check()
-    return [h_apr('s', 's%h', 'short', 'int', 'nondet_short', 2),
+    # case split by branch of g_fmt; the ranges overlap and their union is every (digits, decimal point position) dtoa can return
+    gf = [h_gfmt('exp_neg', -330, -4), h_gfmt('small', -3, 0), h_gfmt('plain', 1, 22), h_gfmt('exp_pos', 5, 320, 1, 8), h_gfmt('exp_pos_long', 14, 320, 9, 17)]
+    return gf + [h_apr('s', 's%h', 'short', 'int', 'nondet_short', 2),
             h_apr('l', 'l%l', 'int', 'long', 'nondet_int', 4),
             h_apr('n', 'n%g', 'double', 'double', 'nondet_double', 8),
             h_nput(), h_opcodes()]
